@@ -404,6 +404,15 @@ def b_tuple(I, a, k, node):
 
 def b_hasattr(I, a, k, node):
     from sa.interp import AbsRaise
+    if isinstance(a[1], Unk) and not a[1].has_const and isinstance(a[0], AObj):
+        # a name that comes from data: either one of the names the class knows, or none of them
+        cands = setattr_candidates(I, a[0].cls)
+        c = I.choose(len(cands) + 1, 'hasattr-name')
+        I.emit('dynamic-hasattr', node, {'obj': a[0], 'name': a[1]})
+        if c == len(cands):
+            a[1].facts.add('not-an-attribute')
+            return False
+        a[1].pin(cands[c])
     try:
         I.get_attr(a[0], concrete(a[1]), node)
         return True
@@ -713,6 +722,27 @@ def m_startswith(I, recv, a, k, node, kind):
         return m_startswith(I, part, [a[0]], k, node, kind)
     if is_concrete(recv) and all(is_concrete(x) for x in a):
         return getattr(concrete(recv), _mname(I, node))(*[concrete(x) for x in a])
+    which_ = _mname(I, node)
+    if isinstance(recv, Unk) and is_concrete(a[0]) and isinstance(concrete(a[0]), tuple) and len(a) == 1:
+        # x.startswith((p, q, ...)) is x.startswith(p) or x.startswith(q) or ...: decided one constant at a time,
+        # so that every path knows which prefix it has
+        for opt in concrete(a[0]):
+            r_ = m_startswith(I, recv, [opt], k, node, kind)
+            if I.truth(r_, node):
+                return True
+        return False
+    if isinstance(recv, Unk) and is_concrete(a[0]) and isinstance(concrete(a[0]), (bytes, str)) and len(a) == 1:
+        # what the path already knows about this value's prefix / suffix may decide the test
+        q = concrete(a[0])
+        yes = [f[1] for f in recv.facts if isinstance(f, tuple) and f[0] == which_ + '-const' and type(f[1]) is type(q)]
+        no = [f[1] for f in recv.facts if isinstance(f, tuple) and f[0] == which_ + '-not' and type(f[1]) is type(q)]
+        fits = (lambda long_, short_: long_.startswith(short_)) if which_ == 'startswith' else (lambda long_, short_: long_.endswith(short_))
+        if any(fits(t, q) for t in yes):
+            return True
+        if any(not fits(t, q) and not fits(q, t) for t in yes):
+            return False
+        if any(fits(q, f_) for f_ in no):
+            return False
     if is_concrete(recv) and is_concrete(a[0]):
         return getattr(concrete(recv), _mname(I, node))(concrete(a[0]))
     if _mname(I, node) == 'endswith' and isinstance(recv, Unk) and is_concrete(a[0]) \
@@ -731,6 +761,8 @@ def m_startswith(I, recv, a, k, node, kind):
             recv.facts.add((which, id(arg), bool(t)))
             if t and is_concrete(arg):
                 recv.facts.add((which + '-const', concrete(arg)))
+            if not t and is_concrete(arg) and isinstance(concrete(arg), (bytes, str)):
+                recv.facts.add((which + '-not', concrete(arg)))
             if t:
                 recv.facts.add('truthy')
     return Unk('cond', kinds=['bool'], taint=tj(recv, a[0]), src=('cond', refine))
